@@ -36,6 +36,7 @@ func genC08(r *kernel.Rand) *kernel.Scenario {
 	c["fifo"] = int64(r.Intn(2))
 	c["async_bus"] = int64(r.Intn(2))
 	c["bus_max_us"] = int64([]int{100, 400, 2000}[r.Intn(3)])
+	c["bus_ack_max_us"] = int64([]int{0, 0, 100, 3000}[r.Intn(4)])
 	c["react_max_us"] = int64([]int{50, 500, 3000}[r.Intn(3)])
 	c["ledger_max_us"] = int64([]int{200, 2000}[r.Intn(2)])
 	c["yield_pct"] = int64([]int{0, 30, 100}[r.Intn(3)])
@@ -109,6 +110,17 @@ func execC08(t *testing.T, sc *kernel.Scenario, trace bool) *kernel.Result {
 						}
 					}
 				}
+			}
+			p.mu.Lock()
+			crafted := p.craftedFunds[sp.ProposalID]
+			p.mu.Unlock()
+			if crafted && !s.Failed() {
+				// a crafted "one coin more than the parent holds" proposal that had to
+				// wait for an update in flight and is affordable in the state after it:
+				// legitimately shown to the user, who declines
+				staleLegit++
+				s.Count("probe.crafted_proposal_became_affordable", 1)
+				return false, s.Delay("react:stale-proposal", 0, 100*time.Microsecond)
 			}
 			if sp.ChallengeDuration == staleMarker {
 				// crafted by the harness (nobody completes the opening): affordable at
@@ -431,6 +443,14 @@ func (p *pair) injectMutant(step int, st *kernel.Step, zWire map[wallet.BackendI
 			m = "S:unknown-parent" // without a parent these all are unknown-parent proposals
 		}
 		msg, err = client.NewSubChannelProposal(pid, cd, a, nonce)
+		if sp, ok := msg.(*client.SubChannelProposalMsg); ok && err == nil && m == "S:too-many-funds" {
+			p.mu.Lock()
+			if p.craftedFunds == nil {
+				p.craftedFunds = map[client.ProposalID]bool{}
+			}
+			p.craftedFunds[sp.ProposalID] = true
+			p.mu.Unlock()
+		}
 	default: // virtual channel proposals; H's parent is its channel with A
 		pid := gen.SubID(78)
 		a := mkAlloc(2, 1, 1)
